@@ -1,4 +1,88 @@
-(* placeholder until the theory files land *)
-From MSDM Require Import model.FactorTable model.GridGame.
-Theorem c18_placeholder : True. Proof. exact I. Qed.
-Print Assumptions c18_placeholder.
+(* C18 — grid-game transitions are normalised and respect the physical constraints;
+   the factor-table algebra they are built from.
+   Definitions: model/FactorTable.v, model/GridGame.v.  Proofs: theory/FactorTableTheory.v,
+   theory/GridGameTheory.v.  Weights are exp(logit) as exact rationals; [ft_w t r] is the weight
+   table t attaches to row r (0 = absent = logit -inf); [req] is dictionary equality of rows. *)
+From Coq Require Import QArith List Bool ZArith.
+From MSDM Require Import model.FactorTable model.GridGame theory.FactorTableTheory theory.GridGameTheory.
+Import ListNotations.
+Local Open Scope Q_scope.
+
+(* The product of two tables over variable sets K1, K2 (shared, disjoint or overlapping) is the natural join:
+   its rows are exactly the merges of matching pairs of rows whose weight product is not 0, each listed once,
+   and the joined row carries the product of the two weights. *)
+Theorem product_natural_join : forall K1 K2 t1 t2,
+  table_over K1 t1 -> table_over K2 t2 ->
+  rows_distinct (ft_rows (ft_product t1 t2)) /\
+  (forall r w, In (r, w) (ft_product t1 t2) ->
+     exists r1 r2, In r1 (ft_rows t1) /\ In r2 (ft_rows t2) /\ dict_match r1 r2 = true /\
+                   r = dict_merge r1 r2 /\ w = ft_w t1 r1 * ft_w t2 r2 /\ ~ w == 0) /\
+  (forall r1 r2, In r1 (ft_rows t1) -> In r2 (ft_rows t2) -> dict_match r1 r2 = true ->
+     ft_w (ft_product t1 t2) (dict_merge r1 r2) == ft_w t1 r1 * ft_w t2 r2) /\
+  (forall r, (forall r1 r2, In r1 (ft_rows t1) -> In r2 (ft_rows t2) -> dict_match r1 r2 = true ->
+                            ~ req r (dict_merge r1 r2)) -> ft_w (ft_product t1 t2) r = 0).
+Proof. exact product_natural_join_thm. Qed.
+Print Assumptions product_natural_join.
+
+(* ... and it is normalised: the probabilities the constructor attaches are weight / total, summing to 1
+   (for ANY two tables with non-negative weights, whatever their variables). *)
+Theorem product_normalised : forall t1 t2,
+  ft_nonneg t1 -> ft_nonneg t2 -> ft_product t1 t2 <> [] ->
+  qsum (ft_probs (ft_product t1 t2)) == 1 /\
+  ft_probs (ft_product t1 t2) = map (fun e => snd e / ft_Z (ft_product t1 t2)) (ft_product t1 t2).
+Proof. exact FactorTableTheory.product_normalised. Qed.
+Print Assumptions product_normalised.
+
+(* Independent tables (disjoint variables, each row listed once) combine into the product measure. *)
+Theorem product_independent : forall K1 K2 t1 t2,
+  table_over K1 t1 -> table_over K2 t2 -> (forall k, In k K1 -> ~ In k K2) ->
+  rows_distinct (ft_rows t1) -> rows_distinct (ft_rows t2) ->
+  ft_Z (ft_product t1 t2) == ft_Z t1 * ft_Z t2 /\
+  forall r1 w1 r2 w2, In (r1, w1) t1 -> In (r2, w2) t2 ->
+    dict_match r1 r2 = true /\
+    ft_w (ft_product t1 t2) (dict_merge r1 r2) == w1 * w2 /\
+    (0 < ft_Z t1 -> 0 < ft_Z t2 ->
+     ft_w (ft_product t1 t2) (dict_merge r1 r2) / ft_Z (ft_product t1 t2) == (w1 / ft_Z t1) * (w2 / ft_Z t2)).
+Proof. exact product_independent_thm. Qed.
+Print Assumptions product_independent.
+
+(* A mixture of two tables over the same variables adds their weights row by row. *)
+Theorem mix_adds : forall K t1 t2,
+  table_over K t1 -> table_over K t2 ->
+  (forall r, ft_w (ft_mix t1 t2) r == ft_w t1 r + ft_w t2 r) /\
+  (t1 <> [] -> t2 <> [] ->
+   rows_distinct (ft_rows (ft_mix t1 t2)) /\ forall r w, In (r, w) (ft_mix t1 t2) -> ~ w == 0).
+Proof. exact mix_adds_thm. Qed.
+Print Assumptions mix_adds.
+
+Theorem scale_def : forall c t,
+  ft_rows (ft_scale c t) = ft_rows t /\
+  (forall r, ft_w (ft_scale c t) r == ft_w t r * c) /\
+  ft_Z (ft_scale c t) == ft_Z t * c /\
+  (forall r, ft_w (ft_div c t) r == ft_w t r / c).
+Proof. exact scale_def_thm. Qed.
+Print Assumptions scale_def.
+
+Theorem marginalize_sums : forall ks t, rows_distinct (ft_rows t) ->
+  (forall m, ft_w (ft_marginalize ks t) m ==
+             qsum (map (fun e => if row_eqb (restrict ks (fst e)) m then snd e else 0) t)) /\
+  ft_Z (ft_marginalize ks t) == ft_Z t /\
+  rows_distinct (ft_rows (ft_marginalize ks t)).
+Proof. exact marginalize_sums_thm. Qed.
+Print Assumptions marginalize_sums.
+
+(* Soundness of the certificate checker run on every next_state_dist the implementation returns. *)
+Theorem gg_check_sound : forall L tol s ja d rews,
+  all_true (gg_check L tol s ja d rews) = true ->
+  (1 - tol <= dsum d <= 1 + tol /\ forall ns p, In (ns, p) d -> 0 <= p) /\
+  match s with
+  | None =>
+      (forall ns p, In (ns, p) d -> 0 < p -> ns = None) /\
+      (forall rv x, In rv rews -> In x rv -> x == 0)
+  | Some cur =>
+      (on_own_goal L cur -> forall ns p, In (ns, p) d -> 0 < p -> ns = None) /\
+      (~ on_own_goal L cur ->
+         forall ns p, In (ns, p) d -> 0 < p -> exists pos, ns = Some pos /\ outcome_ok L cur ja pos)
+  end.
+Proof. exact gg_check_sound_thm. Qed.
+Print Assumptions gg_check_sound.
